@@ -127,6 +127,12 @@ Theorem C02_dict_iff_keys_and_values_repaired :
 Proof. exact dict_items_parse. Qed.
 Print Assumptions C02_dict_iff_keys_and_values_repaired.
 
+Theorem C02_set_iff_items_repaired :       (* the input a set, a list or a tuple; the item type hashable (wf_ty) *)
+  forall yl t v l, wf_ty (TSet t) = true -> seq_items v = Some l ->
+  accepts all_fixed yl (TSet t) v = forallb (accepts_item all_fixed yl t) l.
+Proof. exact set_items_parse. Qed.
+Print Assumptions C02_set_iff_items_repaired.
+
 (* an item that is a Python object (not a str, not None) is accepted as an item exactly when it is accepted stand-alone *)
 Theorem C02_item_is_standalone_repaired :
   forall yl t x, wf_ty t = true -> is_str x = false -> x <> VNone ->
@@ -154,6 +160,13 @@ Theorem C02_list_iff_items_parse :
 Proof. exact list_items_pinned. Qed.
 Print Assumptions C02_list_iff_items_parse.
 
+Theorem C02_set_iff_items_parse :
+  forall yl t v l, in_guard yl (TSet t) v = true -> wf_ty (TSet t) = true -> seq_items v = Some l ->
+  (forall x, In x l -> in_guard yl t x = true /\ is_str x = false /\ x <> VNone) ->
+  is_ok (impl yl (TSet t) v) = forallb (fun x => is_ok (impl yl t x)) l.
+Proof. exact set_items_pinned. Qed.
+Print Assumptions C02_set_iff_items_parse.
+
 Theorem C02_union_iff_some_member_parse :
   forall yl ts v0, in_guard yl (TUnion ts) v0 = true -> wf_ty (TUnion ts) = true -> is_str v0 = false -> v0 <> VNone ->
   (forall t, In t ts -> in_guard yl t v0 = true) ->
@@ -168,6 +181,13 @@ Definition yl0 (s : str) : lres :=          (* a toy loader: "1" -> 1, "a" -> 'a
   else if str_eqb s [48;120;95]%N then LValErr
   else LYamlErr.
 Definition s_null : str := [110;117;108;108]%N.
+
+Example C02_set_example :     (* Set[int] given [1, True]: True alone is rejected, so is the list — and in the other order too *)
+  in_guard yl0 (TSet TInt) (VList [VInt 1; VBool true]) = true
+  /\ is_ok (impl yl0 (TSet TInt) (VList [VInt 1; VBool true])) = false
+  /\ is_ok (impl yl0 (TSet TInt) (VList [VBool true; VInt 1])) = false
+  /\ impl yl0 (TSet (TUnion [TInt; TBool])) (VList [VInt 1; VBool true]) = AOk (VSet [VInt 1]).
+Proof. vm_compute. repeat split. Qed.
 
 (* ---- 2c. registered / restricted Union members and declared defaults (Model/C02Ext.v) ------------------------------ *)
 (* the trial loop itself, for ARBITRARY member results `rs` (whatever a registered type's constructor did with the value:
